@@ -504,3 +504,108 @@ def data_condition_single_batch_mode_cycles_through_the_loader(S):
     S.method(cond2, "forward")
     S.ensure("second-condition-starts-at-batch-0-and-continues-with-batch-1", len(model2.calls) == 2 and model2.calls[0]["points"] is b0[0] and model2.calls[1]["points"] is b1[0])
     S.ensure("first-condition-continues-its-own-pass", len(model.calls) == 4 and model.calls[3]["points"] is b1[0])
+
+
+# ----------------------------------------------------------------------------- HPM / HPCM data conditions (same accumulation loop)
+HPCM = "torchphysics.problem.conditions.condition.HPCMCondition"
+HPMD = "torchphysics.problem.conditions.condition.HPM_EquationLoss_at_DataPoints"
+
+
+@scenario("C04", [HPCM + ".forward", HPCM + "._compute_dist", HPCM + ".__init__", HPMD + ".forward", HPMD + "._compute_dist", HPMD + ".__init__"], configs=["hpcm", "hpm-at-data-points"], bounded="spaces schematic (x:2, t:1 -> u:2); norm 2; numbers and sizes of batches symbolic")
+def hpm_and_hpcm_conditions_aggregate_every_batch_once(S):
+    """the two further data-driven conditions share DataCondition's full-data-set loop.  Inductive loop contract over an
+    arbitrary loader: Acc(0) = 0, Acc(i+1) = Acc(i) + mean(a_i ** 2) / M, loss = Acc(M), every batch used once, with
+      HPCM: a_i = | state(x_i) - y_i - correction(state output, x_i by name) |   (row by row)
+      HPM : a_i = reduce(error(residual(x_i by name, parameters)))                (one number per batch)"""
+    from tpv.spec import LoopSpec, RowFn, rowwise_tensor_fn, scalar_tensor_fn
+    from tpv.tlib import Tensor
+    from tpv.core import STensor, Dim, zreal
+    from tpv.absdom import AbstractModel
+    from tpv import torchlib, tlib, core
+
+    I = S.I
+    hpcm = S.cfg == "hpcm"
+    M = S.int("M", 0)
+    fam = BatchFamily(S, M)
+    tx = I.binop(ast.Mult(), S.new(RN, "x", 2), S.new(RN, "t", 1))
+    model = AbstractModel(S, "state", tx, S.new(RN, "u", 2))
+    cls = HPCM if hpcm else HPMD
+    if hpcm:
+        corr = RowFn("corr", ["u", "x", "t"], 2, {"u": 2, "x": 2, "t": 1})
+        wrap = lambda I2, bound: None
+        # the correction function must return Points: wrap the row function
+        from tpv.spec import UserFn
+
+        def corr_points(I2, bound):
+            t_ = corr.tpv_call(I2, [], {k: bound[k] for k in ("u", "x", "t")})
+            return S.new(POINTS, t_, S.new(RN, "u", 2))
+
+        cfn = UserFn("correction", ["u", "x", "t"], returns=corr_points)
+        cond = S.new(cls, model.obj, None, fam, cfn, norm=2, use_full_dataset=True)
+    else:
+        res = RowFn("res", ["x", "t"], 2, {"x": 2, "t": 1})
+        E, Rd = rowwise_tensor_fn("E"), scalar_tensor_fn("Rd")
+        cond = S.new(cls, model.obj, fam, 2, res, error_fn=E, use_full_dataset=True, reduce_fn=Rd)
+    Acc = z3.Function("Acc", z3.IntSort(), z3.RealSort())
+    S.assume(Acc(0) == 0)
+    probe = S.probe_returns(cls + "._compute_dist")
+    Mz = zint(M)
+
+    def make(I_, env, i):
+        env.vars["loss"] = Tensor(STensor([Dim([])], lambda idx: Acc(zint(i)), "real"))
+        del probe[:]
+        del model.calls[:]
+        if hpcm:
+            del corr.calls[:]
+        else:
+            del res.calls[:]
+            del Rd.calls[:]
+
+    def check(I_, env, i, tag):
+        loss = env.vars.get("loss")
+        ok = isinstance(loss, Tensor) and loss.val.numel_concrete() == 1
+        S.ensure(f"batch-loop/{tag}:loss-is-one-number", ok, kind="inv")
+        if not ok:
+            return
+        lv = zreal(loss.val.at([() for _ in loss.val.shape]))
+        if tag == "inv-init":
+            S.ensure(f"batch-loop/{tag}:starts-at-zero", lv == Acc(0), kind="inv")
+            return
+        S.ensure(f"batch-loop/{tag}:distance-computed-once", len(probe) == 1, kind="inv")
+        if len(probe) != 1:
+            return
+        a = probe[0]
+        prev = z3.simplify(zint(i) - 1)
+        xin = lambda r: [fam.FX(prev, zint(r), z3.IntVal(1)), fam.FX(prev, zint(r), z3.IntVal(2)), fam.FX(prev, zint(r), z3.IntVal(0))]
+        if hpcm:
+            S.ensure(f"batch-loop/{tag}:state-model-and-correction-evaluated-once", len(model.calls) == 1 and len(corr.calls) == 1, kind="inv")
+            okd = a.rank == 2 and a.shape[1].concrete() == 2
+            S.ensure(f"batch-loop/{tag}:distance-has-one-entry-per-row-and-component", okd, kind="inv")
+            if okd:
+                def want_entry(q):
+                    u = model.out_terms(xin(q[0][0]))
+                    cval = corr.value_terms(u + [xin(q[0][0])[0], xin(q[0][0])[1], xin(q[0][0])[2]])
+                    d = core.select_comp(q[1][0], 2, [(lambda c=c: u[c] - fam.FY(prev, zint(q[0][0]), z3.IntVal(c)) - cval[c]) for c in range(2)])
+                    return z3.If(d >= 0, d, -d)
+
+                S.forall(f"batch-loop/{tag}:distance-is-abs-state-minus-target-minus-correction-by-name", Tensor(a), lambda q: zreal(a.at(q)) == want_entry(q), kind="inv")
+        else:
+            S.ensure(f"batch-loop/{tag}:residual-error-reduce-once", len(res.calls) == 1 and len(Rd.calls) == 1 and len(E.calls) >= 1, kind="inv")
+            if len(res.calls) == 1 and len(Rd.calls) == 1:
+                kw = res.calls[0]["kwargs"]
+                S.ensure(f"batch-loop/{tag}:batch-value-is-reduce-of-error-of-residual", Rd.calls[0]["result"].val is a or z3.eq(z3.simplify(zreal(Rd.calls[0]["result"].val.at([() for _ in Rd.calls[0]["result"].val.shape]))), z3.simplify(zreal(a.at([() for _ in a.shape])))), kind="inv")
+                xk, tk = kw.get("x"), kw.get("t")
+                if isinstance(xk, Tensor) and isinstance(tk, Tensor) and xk.val.rank == 2:
+                    S.forall(f"batch-loop/{tag}:residual-gets-x-of-this-batch-by-name", xk, lambda q: zreal(xk.val.at(q)) == core.select_comp(q[1][0], 2, [(lambda c=c: xin(q[0][0])[c]) for c in range(2)]), kind="inv")
+                    S.forall(f"batch-loop/{tag}:residual-gets-t-of-this-batch-by-name", tk, lambda q: zreal(tk.val.at(q)) == xin(q[0][0])[2], kind="inv")
+                    S.ensure(f"batch-loop/{tag}:coordinates-are-tracked-leaves", xk.requires_grad and tk.requires_grad, kind="inv")
+                else:
+                    S.ensure(f"batch-loop/{tag}:residual-gets-the-coordinates", False, kind="inv")
+        want = torchlib.t_mean(I_, tlib.power(I_, Tensor(a), 2)).val.at([])
+        definition = Acc(zint(i)) == Acc(prev) + want / z3.ToReal(Mz)
+        S.ensure(f"batch-loop/{tag}:accumulator-follows-its-recursive-definition", lv == Acc(zint(i)), [definition], kind="inv")
+
+    S.loop(cls + ".forward", 0, LoopSpec(make, check, modifies=["loss"], label="batch-loop"))
+    loss = S.method(cond, "forward")
+    lv = zreal(loss.val.at([() for _ in loss.val.shape]))
+    S.ensure("loss-is-the-accumulator-after-all-M-batches", lv == Acc(Mz))
